@@ -11,6 +11,7 @@ import (
 	"io"
 	"strings"
 	"sync"
+	"sync/atomic"
 	"testing"
 	"time"
 
@@ -41,6 +42,7 @@ type TransferScenario struct {
 	Streams     []TStream `json:"streams"`
 	Dgrams      []TDgram  `json:"dgrams,omitempty"`
 	HorizonMS   int64     `json:"horizon_ms"`
+	LateRebind  bool      `json:"late_rebind,omitempty"`  // at the end: the client's address changes, then a burst of three ack-eliciting packets on a quiet connection
 	ForeignPeer bool      `json:"foreign_peer,omitempty"` // at the end: a packet framed unlike the in-tree sender's (ACK frame last) is played to the client
 }
 
@@ -156,6 +158,12 @@ func genTransfer(seed uint64, tier string) KScenario {
 	sc.Net.FaultUntilMS = int64(r.Pick(500, 2000, 5000, 20000))
 	sc.HorizonMS = 0 // computed from the configuration at run time
 	sc.ForeignPeer = r.P(0.3)
+	if r.P(0.12) {
+		// NAT rebinding in mid-transfer: from some client datagram on, the client's packets come from another address
+		sc.Net.RebindAtOrd = r.Pick(6, 12, 25, 60, 150)
+	} else if !sc.ForeignPeer && r.P(0.3) {
+		sc.LateRebind = true
+	}
 	return sc
 }
 
@@ -445,6 +453,7 @@ func runTransfer(t *testing.T, ksc KScenario, res *KResult) {
 	}
 	res.Probe("handshake-ok")
 
+	var lateProbe atomic.Bool
 	side := func(me int) {
 		defer wg.Done()
 		conn := conns[me]
@@ -474,6 +483,10 @@ func runTransfer(t *testing.T, ksc KScenario, res *KResult) {
 				idMu.Lock()
 				i, ok := byID[[2]int64{int64(1 - me), sid}]
 				idMu.Unlock()
+				if !ok && uni && lateProbe.Load() {
+					go io.Copy(io.Discard, rs) // the stream of the late-rebind probe
+					continue
+				}
 				if !ok {
 					res.Fail("accepted a stream the peer never opened", "side %d stream %d", me, sid)
 					return
@@ -641,6 +654,9 @@ func runTransfer(t *testing.T, ksc KScenario, res *KResult) {
 		// may be more than one ahead of what the client can follow)
 		if on := wOraclesEnabled("C01"); sc.ForeignPeer && sc.Cfg.KeyUpdate == 0 && (on["C07"] || on["all"]) {
 			tForeignPeerProbe(w, wo, res)
+		} else if sc.LateRebind && sc.Net.RebindAtOrd == 0 {
+			lateProbe.Store(true)
+			tLateRebindProbe(w, wo, conns[0], res)
 		}
 	}
 	conns[0].CloseWithError(0, "done")
@@ -710,6 +726,7 @@ func tForeignPeerProbe(w *World, wo *WireOracles, res *KResult) {
 		pkt = c.tapSeal1RTT(1, last.DCID, pn, payload)
 		if pkt != nil {
 			wo.acct(c).delivered[1][2][int64(pn)] = true // the client is about to be delivered this number
+			wo.forged[0] = append(wo.forged[0], int64(pn))
 		}
 	}
 	nowMS := w.NowNS() / 1e6
@@ -730,7 +747,7 @@ func tForeignPeerProbe(w *World, wo *WireOracles, res *KResult) {
 			continue
 		}
 		for i := range p.Frames {
-			if f := &p.Frames[i]; f.Name == "ACK" && len(f.Ranges) > 0 && f.Ranges[0][1] >= pn && f.Ranges[0][0] <= pn {
+			if f := &p.Frames[i]; f.Name == "ACK" && ackCovers(f, int64(pn)) {
 				acked = true
 			}
 		}
@@ -749,6 +766,42 @@ func tForeignPeerProbe(w *World, wo *WireOracles, res *KResult) {
 	if !acked {
 		res.Fail("ack-eliciting packet of a peer that puts its ACK frame last was not acknowledged within the maximum ack delay", "packet number %d injected at %v: no ACK covering it within 60 ms", pn, time.Duration(t0))
 	}
+}
+
+// tLateRebindProbe (C07: an ACK becomes due at once on the second ack-eliciting packet - also when the packets come from
+// an address the receiver has not seen before): on the quiet connection the client's address changes (NAT rebinding), then
+// the client sends a burst of three full packets. Nothing else is in flight that would make the server send, so an ACK that
+// is due but not sent stays visible: every packet of the burst that reached the server intact must be covered by an ACK the
+// server sends within the maximum ack delay (the wire oracle's obligation list), judged 300 ms later.
+func tLateRebindProbe(w *World, wo *WireOracles, conn *quic.Conn, res *KResult) {
+	w.mu.Lock()
+	w.Net.RebindAtOrd = max(1, len(w.Log[0]))
+	w.mu.Unlock()
+	str, err := conn.OpenUniStream()
+	if err != nil {
+		return
+	}
+	str.Write(make([]byte, 3300))
+	str.Close()
+	time.Sleep(300 * time.Millisecond)
+	res.Probe("late-rebind-probe")
+	w.mu.Lock()
+	w.Tap.mu.Lock()
+	now := w.NowNS()
+	for _, c := range w.Tap.Conns {
+		if c.Shadow {
+			continue
+		}
+		a := wo.acct(c)
+		for pn, due := range a.ackDue[1] {
+			if now > due && !a.closed[1] && !a.closed[0] {
+				delete(a.ackDue[1], pn)
+				wo.report("C07", "ack-eliciting packet not acknowledged within the maximum ack delay", "server has not acknowledged 1-RTT pn %d of a burst sent from a new client address, due %v ago", pn, time.Duration(now-due))
+			}
+		}
+	}
+	w.Tap.mu.Unlock()
+	w.mu.Unlock()
 }
 
 // judgeFailure decides whether an incomplete run is explained by the injected faults (legitimate) or is a liveness violation.
@@ -800,6 +853,12 @@ func judgeFailure(w *World, cfg *WConfig, netc *WNet, nExplicit int, res *KResul
 			if kf := wKnownC12(w, cfg, who, uint64(te.ErrorCode)); kf != "" && !wOraclesEnabled("C01")["C12"] {
 				// a known finding of another property (C12) ended this run: neither passed nor violated here
 				res.Blocked = kf
+				continue
+			}
+			if te.ErrorCode == 11 && cfg.Retry && w.rebound {
+				// the client's address changed between the Retry and the Initial that carries the Retry token: the token is
+				// rightly refused (it proves another address)
+				res.Probe("retry-token-invalidated-by-address-change")
 				continue
 			}
 			name := wErrName(uint64(te.ErrorCode))
